@@ -143,7 +143,7 @@ func (h *recHandler) call(conn *redis.Conn, method string, key string, args []an
 	if h.t0 != nil {
 		lag = int(time.Since(h.t0(c)).Milliseconds())
 	}
-	ev := Ev{"ev": "call", "c": c, "m": method, "a": args, "db": conn.Database(), "auth": conn.IsAuthrized(), "inreg": inreg, "ud": ud, "lag_ms": lag}
+	ev := Ev{"ev": "call", "c": c, "m": method, "a": args, "db": dbRec(conn.Database()), "auth": conn.IsAuthrized(), "inreg": inreg, "ud": ud, "lag_ms": lag}
 	if opt == nil {
 		opt = Ev{"none": true}
 	}
